@@ -131,10 +131,10 @@ type IOBuf struct {
 	mark int
 }
 
-func num(i int64) Value         { return Value{K: KNum, N: big.NewInt(i)} }
-func numBig(b *big.Int) Value   { return Value{K: KNum, N: b} }
-func boolean(b bool) Value      { return Value{K: KBool, B: b} }
-func status(s string) Value     { return Value{K: KStatus, S: s} }
+func num(i int64) Value          { return Value{K: KNum, N: big.NewInt(i)} }
+func numBig(b *big.Int) Value    { return Value{K: KNum, N: b} }
+func boolean(b bool) Value       { return Value{K: KBool, B: b} }
+func status(s string) Value      { return Value{K: KStatus, S: s} }
 func (v Value) isOKStatus() bool { return v.K == KStatus && v.S == "" }
 
 func (v Value) String() string {
